@@ -43,3 +43,27 @@ Qed.
 Theorem d_remove_edge_missing e d : has e (h_edge (ts d)) = false ->
   d_remove_edge e d = draise d IDNotFound.
 Proof. intro Hh. unfold d_remove_edge. rewrite Hh. reflexivity. Qed.
+
+(* strong removal of a node: exactly the edges having the node in their tail or head disappear (from both
+   tables); every other edge keeps its tail and head *)
+Lemma d_remove_raw_fold es : forall d e',
+  get e' (h_edge (ts (fold_left (fun d e => d_remove_edge_raw e d) es d))) = (if mem e' es then None else get e' (h_edge (ts d))) /\
+  get e' (h_edge (hs (fold_left (fun d e => d_remove_edge_raw e d) es d))) = (if mem e' es then None else get e' (h_edge (hs d))).
+Proof.
+  induction es as [|e es IH]; intros d e'; cbn [fold_left mem]; [split; reflexivity|].
+  destruct (IH (d_remove_edge_raw e d) e') as [A B]. rewrite A, B. unfold d_remove_edge_raw. cbn [ts hs].
+  rewrite !remove_edge1_get. destruct (lbl_eqb e' e); cbn [orb]; destruct (mem e' es); split; reflexivity.
+Qed.
+
+Theorem d_remove_node_strong_effect n re d outs : get n (h_node (ts d)) = Some outs ->
+  let r := d_remove_node n true re d in
+  let d' := dst_of r in
+  let gone := sunion (in_mships d n) outs in
+  snd (fst r) = Ok /\
+  forall e', get e' (h_edge (ts d')) = (if mem e' gone then None else get e' (h_edge (ts d))) /\
+             get e' (h_edge (hs d')) = (if mem e' gone then None else get e' (h_edge (hs d))).
+Proof.
+  intro G. cbv zeta. unfold d_remove_node. rewrite G. split; [reflexivity|].
+  intro e'. unfold dst_of, dok, both. cbn [fst ts hs]. unfold drop_node. cbn [h_edge].
+  apply d_remove_raw_fold.
+Qed.
